@@ -212,6 +212,34 @@ def tryFalse (s : State) (t : Nat) (c : Call) (i : Nat) : Bool :=
     | some m1 => (step s.size m1 ⟨t, c.kind.op c.key false⟩).isSome
     | none => false
 
+/-- the mutex the action was performed on, named by its position in s.locks (`none`: not named, "na") -/
+def obsIdx (t : Nat) (verb res : String) (isTry : Bool) : Except String (Option Nat) :=
+  let named := if isTry then (res.splitOn ",").drop 1 else res.splitOn ","
+  if named = ["na"] then .ok none else
+  match named.findSome? fun w => if w.startsWith "i=" then some ((w.drop 2).toString) else none with
+  | some v => match v.toInt? with
+    | some j => if j < 0 then .error s!"thread {t}: {verb} was performed on a mutex that is not one of s.locks" else .ok (some j.toNat)
+    | none => .error s!"unreadable object name {res}"
+  | none => .error s!"unreadable object name {res}"
+
+/-- the answer of a Try… (`none` for the other methods) -/
+def tryAnswer (isTry : Bool) (res : String) : Except String (Option Bool) :=
+  if isTry then
+    match (res.splitOn ",").head? with
+    | some "true" => .ok (some true)
+    | some "false" => .ok (some false)
+    | _ => .error s!"unreadable result {res}"
+  else .ok none
+
+/-- the model step of the call `c` of thread `t` with the observed answer `r`; a `Try… = false` the model does not
+    enable is accepted with the state unchanged iff `tryFalse` -/
+def perform (s : State) (t : Nat) (c : Call) (i : Nat) (r : Option Bool) (verb res : String) : Except String State :=
+  match step s.size s.m ⟨t, c.kind.op c.key (r.getD true)⟩ with
+  | some m' => .ok { s with m := m', calls := setCall s.calls t { c with done := some r } }
+  | none =>
+    if r = some false ∧ tryFalse s t c i then .ok { s with calls := setCall s.calls t { c with done := some r } }
+    else .error s!"model: {verb} by thread {t}{if c.kind.isTry then s!" answering {res}" else ""} is not enabled: segment {i} is {repr (s.m.locks[i]?)}; holds: {holds s.m}"
+
 def sync (s : State) (t : Nat) (fn act res : String) : Except String State :=
   match lookupCall s.calls t with
   | some c =>
@@ -223,31 +251,15 @@ def sync (s : State) (t : Nat) (fn act res : String) : Except String State :=
     | none => .error "model: getLock panics (size = 0)"
     | some i =>
       -- the mutex the action was performed on (named by its position in s.locks) must be the model's
-      let named := if c.kind.isTry then (res.splitOn ",").drop 1 else res.splitOn ","
-      let obsIdx : Except String (Option Nat) :=
-        if named = ["na"] then .ok none else
-        match named.findSome? fun w => if w.startsWith "i=" then some ((w.drop 2).toString) else none with
-        | some v => match v.toInt? with
-          | some j => if j < 0 then .error s!"thread {t}: {verb} was performed on a mutex that is not one of s.locks" else .ok (some j.toNat)
-          | none => .error s!"unreadable object name {res}"
-        | none => .error s!"unreadable object name {res}"
-      do
-      let oi ← obsIdx
-      if oi.isSome ∧ oi ≠ some i then
-        throw s!"thread {t}: {verb} was performed on the mutex of segment {oi.getD 0} where the model's FNV-1a index of the key is {i}"
-      let r : Option Bool ←
-        if c.kind.isTry then
-          match (res.splitOn ",").head? with
-          | some "true" => pure (some true)
-          | some "false" => pure (some false)
-          | _ => throw s!"unreadable result {res}"
-        else pure none
-      let fin (m : Ekit.SegmentLock.State) : State := { s with m, calls := setCall s.calls t { c with done := some r } }
-      match step s.size s.m ⟨t, c.kind.op c.key (r.getD true)⟩ with
-      | some m' => pure (fin m')
-      | none =>
-        if r = some false ∧ tryFalse s t c i then pure (fin s.m)
-        else throw s!"model: {verb} by thread {t}{if c.kind.isTry then s!" answering {res}" else ""} is not enabled: segment {i} is {repr (s.m.locks[i]?)}; holds: {holds s.m}"
+      match obsIdx t verb res c.kind.isTry with
+      | .error e => .error e
+      | .ok oi =>
+        if oi.isSome ∧ oi ≠ some i then
+          .error s!"thread {t}: {verb} was performed on the mutex of segment {oi.getD 0} where the model's FNV-1a index of the key is {i}"
+        else
+        match tryAnswer c.kind.isTry res with
+        | .error e => .error e
+        | .ok r => perform s t c i r verb res
   | none => .error s!"thread {t} logged {fn}:{act} ({res}) outside a call"
 
 def resL (s : State) (t : Nat) (args : List String) : Except String State :=
